@@ -75,8 +75,8 @@ def gen_case(rng, tier, index):
                              for _ in range(rng.choice([0, 0, 1, 2]))]}
             scen.append(s)
         return {"layer": 2, "scenarios": scen}
-    if rng.random() < 0.3:
-        return _shape_case(rng)
+    if rng.random() < 0.4:
+        return _shape_case(rng) if rng.random() < 0.5 else _shape_failfast(rng)
     model = projgen.gen_valid_project(rng, nmin=4, nmax=8,
                                       features=set(rng.sample(["checkoutscript", "diamond", "tools", "vars", "provideDeps",
                                                                "import", "forward", "nobuild"], rng.randint(2, 6))) | {"diamond"})
@@ -118,6 +118,35 @@ def _shape_case(rng):
     return {"layer": 1, "model": model, "jobs": rng.choice([2, 2, 3]), "keep_going": rng.random() < 0.8,
             "sched_seed": rng.getrandbits(32), "durations": [0, 0.001], "duration_by_match": dur,
             "fail": {"match": "/build/%s/" % victim, "nth": 1, "at": rng.randint(1, 4)}}
+
+def _shape_failfast(rng):
+    """More ready work than job slots when a step fails without keep-going: tasks that
+    are queued for a slot at that moment must not start their step afterwards."""
+    n = rng.choice([4, 5, 6, 7])
+    recipes = {}
+    def mk(deps):
+        r = projgen._leaf(rng)
+        r["depends"] = [{"name": d, "use": ["result", "deps"]} for d in deps]
+        return r
+    leafs = ["x%d" % i for i in range(n)]
+    for l in leafs:
+        recipes[l] = mk([])
+    mids = []
+    if rng.random() < 0.5:
+        recipes["m"] = mk(rng.sample(leafs, 2))
+        mids = ["m"]
+    recipes["root"] = mk(mids + leafs)
+    model = {"recipes": recipes, "classes": {}, "default_env": {}, "sources": {}, "order": ["root"] + mids + leafs,
+             "features": ["shape-failfast"]}
+    victim = rng.choice(leafs)
+    step = rng.choice(["build", "build", "dist"])
+    dur = [["/%s/%s/" % (step, victim), rng.choice([0.5, 1, 2.5]), 1]]
+    for l in leafs:
+        if l != victim and rng.random() < 0.5:
+            dur.append(["/build/%s/" % l, rng.choice([0.5, 1, 3, 6]), rng.choice([0, 1])])
+    return {"layer": 1, "model": model, "jobs": rng.choice([2, 2, 3]), "keep_going": False,
+            "sched_seed": rng.getrandbits(32), "durations": [0, 0.001, 0.5, 1], "duration_by_match": dur,
+            "fail": {"match": "/%s/%s/" % (step, victim), "nth": 1, "at": rng.randint(1, 4)}}
 
 def directed_cases(tier):
     # the cook pattern (spawn a child, yield the slot while waiting) under an
@@ -292,6 +321,23 @@ def _instrument():
         os.write(self._InternalJobServer__wfd, b"\0" * n)
         return orig(self)
     B.InternalJobServer.shutdown = shutdown
+    # who holds a job slot, and when does the builder stop (first failure without -k)?
+    o_acq, o_rel = B.JobServerSemaphore.acquire, B.JobServerSemaphore.release
+    async def acquire(self):
+        await o_acq(self)
+        loopsim.SIM.log("slot-acq", loopsim.task_seq())
+    def release(self):
+        loopsim.SIM.log("slot-rel", loopsim.task_seq())
+        return o_rel(self)
+    B.JobServerSemaphore.acquire = acquire
+    B.JobServerSemaphore.release = release
+    def get_running(self):
+        return self.__dict__.get("_verif_running", True)
+    def set_running(self, v):
+        if not v and self.__dict__.get("_verif_running", True):
+            loopsim.SIM.log("builder-stopped")
+        self.__dict__["_verif_running"] = v
+    B.LocalBuilder._LocalBuilder__running = property(get_running, set_running)
 
 def _layer1(case, stats):
     top = common.scratch_dir("c06-%d" % os.getpid())
@@ -345,7 +391,25 @@ def _layer1(case, stats):
         started, ended, running = {}, {}, set()
         failed_ws = None
         failed_all = []
-        for e in ev:
+        holders = {}            # task -> position of its last slot acquisition
+        stopped_at = None
+        for pos, e in enumerate(ev):
+            if e[0] == "slot-acq":
+                holders[e[1]] = pos
+            elif e[0] == "slot-rel":
+                holders.pop(e[1], None)
+            elif e[0] == "builder-stopped" and stopped_at is None:
+                stopped_at = pos
+            if e[0] == "sub-start" and e[3][0] == "bash" and stopped_at is not None and not case["keep_going"] \
+                    and not any(x[0] == "SIGINT" for x in ev):
+                # (d) a failure stops the build: only a task that already held its job slot when
+                # the builder stopped may still start the step it was preparing; a task that got
+                # its slot afterwards must notice and give up
+                t = e[7] if len(e) > 7 else None
+                if t is not None and N > 1 and holders.get(t, pos) > stopped_at:
+                    return {"kind": "step-started-after-build-stopped",
+                            "detail": "%s started by a task that obtained its job slot after the build had been stopped by the "
+                                      "failure of %s (no keep-going)" % (os.path.dirname(e[3][1]), failed_ws)}, log, True
             if e[0] == "sub-start" and e[3][0] == "bash":
                 d = os.path.dirname(e[3][1])
                 if d in running:
